@@ -96,3 +96,10 @@ impl<K: Canon, V: Canon> Canon for BTreeMap<K, V> {
     #[verifier::external_body] fn check(&self) -> (r: Result<(), SerializationError>) { unimplemented!() }
     #[verifier::external_body] proof fn ser_injective(a: Self, b: Self, c: Compress, ra: Seq<u8>, rb: Seq<u8>) {}
 }
+// ark_serialize::serialize_to_vec!(x): the compressed canonical encoding of x (prelude macro -> ser_to_vec)
+pub trait SerBytes { spec fn ser_bytes(&self) -> Seq<u8>; }
+impl<T: Canon> SerBytes for T { open spec fn ser_bytes(&self) -> Seq<u8> { self.ser(Compress::Yes) } }
+#[verifier::external_body]
+pub fn ser_to_vec<T: SerBytes>(x: &T) -> (r: Result<Vec<u8>, SerializationError>)
+    ensures r is Ok ==> r->Ok_0@ == x.ser_bytes()
+{ unimplemented!() }
